@@ -431,6 +431,12 @@ func main() {
 				return
 			}
 			first := fails[0]
+			for _, f := range fails {
+				if f.Kind == "judge" {
+					first = f
+					break
+				}
+			}
 			if shrink {
 				budget := 10
 				small := rig.ShrinkList(cs.Ops, func(ops []Op) bool {
@@ -481,7 +487,7 @@ func main() {
 			env.Case.Tag = "corpus:" + strings.TrimSuffix(filepath.Base(f), ".json")
 			cases = append(cases, *env.Case)
 		}
-		n := c.Budget(42, 600)
+		n := c.Budget(120, 3000)
 		j0 := c.Rng.Intn(len(kinds) * len(points))
 		for i := 0; i < n; i++ {
 			// every (kind, point) pair comes round, then random histories take every third slot
